@@ -19,6 +19,15 @@
 //	(d) the malformed framing list (bad Content-Length, unsupported / repeated
 //	    Transfer-Encoding, bad chunk sizes), each followed by a valid message, x one piece, every
 //	    single cut, every double cut, byte-at-a-time;
+//	(e) the value space of the framing header fields (fhdr.go): Content-Length and
+//	    Transfer-Encoding x value classes {empty, blanks only (SP, several, HT, mixed), valid,
+//	    valid with leading / trailing blanks, sign / plus / hex / overflow / list / non-digit
+//	    forms for Content-Length, mixed case / unknown / parameter / list forms for
+//	    Transfer-Encoding} on a single line, every ordered pair of a representative value set on
+//	    two lines, every Content-Length x Transfer-Encoding combination in both orders, three-line
+//	    forms; x position of the lines in the header block x body present / absent x request /
+//	    response, continued by a valid message, x one piece, every single cut, byte-at-a-time
+//	    (thorough: every double cut), both processors; judged by httpgen.FramingHeaderRef;
 //	(d2) the framing CR/LF neighbourhood (framing.go): for every base of a framing grammar
 //	    (requests and responses x {no body, Content-Length 0/3/LF-first/CRLF, chunked x 6 chunk
 //	    lists (one and two hex digits, data that looks like chunk framing) x extension x
@@ -519,6 +528,12 @@ func run(tier string, sh *vkit.Shard, p *vkit.Part) {
 		item(func() { e.malformedItem(mf); p.Count("d.malformed_streams", 1) })
 	}
 
+	// (e) the value space of the framing header fields
+	for _, set := range fhSets() {
+		set := set
+		item(func() { e.fhItem(set, thorough) })
+	}
+
 	// (d2) the framing CR/LF neighbourhood
 	for _, fb := range framingBases(thorough) {
 		fb := fb
@@ -688,6 +703,19 @@ func replay(_ string, raw json.RawMessage) string {
 		_ = json.Unmarshal(raw, &li)
 		add(limitOracle(li.Bodies, c))
 		fmt.Printf("verdict=%q max-cached=%d retain-over=%d\n%s", lastLimited.Verdict, lastLimited.MaxCached, lastLimited.RetainOver, lastLimited.Log)
+	case strings.HasPrefix(in.Note, "e.fhdr"):
+		var fi struct {
+			Lines []httpgen.FHLine `json:"lines"`
+		}
+		_ = json.Unmarshal(raw, &fi)
+		ref := httpgen.FramingHeaderRef(fi.Lines)
+		fmt.Printf("framing header lines %q: reference %s (%s)\n", fi.Lines, ref.Verdict, ref.Reason)
+		r := httpgen.Run(c, false)
+		fmt.Printf("verdict=%q completes=%v\n%s", r.Verdict, r.CompleteAt, r.Log)
+		add(judgeResult(c, r))
+		if v := fhJudge(ref, c, r); v != nil {
+			add([][2]string{*v})
+		}
 	case strings.HasPrefix(in.Note, "d2."):
 		var fi struct {
 			Kind string `json:"kind"`
@@ -727,7 +755,7 @@ func replay(_ string, raw json.RawMessage) string {
 func main() {
 	vkit.Main(&vkit.Spec{
 		Property: "C08", Level: "model_checking",
-		Rule: "one case = (byte stream, segmentation, processor, ReadLimit, MaxHTTPBodySize) executed on the real nbhttp.Parser; (a) all strings of length <= 4 (thorough 6) over 12 symbols after each of 11 parser-parking prefixes x {one piece, prefix+suffix, suffix byte-at-a-time}; (b) all distinct single-byte mutants of 20 base messages x {one piece, every single cut, byte-at-a-time; thorough: every double cut with the real processors}; (c) 3x3 limit configurations x 82 messages straddling 16/64 (tokens) and 4/64 (bodies) x {one piece, every single cut, pieces of 1,7,limit-1,limit,limit+1}; (d) malformed framing list (content-length, transfer-encoding, chunk-size forms, each continued by a valid message) x {one piece, every single cut, every double cut, byte-at-a-time}; (d2) every framing CR and LF (positions recorded by the generator: start line, header lines, header-block end, chunk-size lines, chunk-data terminators, last-chunk line, trailer lines, final blank line) of every base of the framing grammar (counter d2.bases; requests and responses; bodiless, Content-Length, chunked x chunk lists x extensions x trailers; header and start-line variants; pipelines) x {deleted, doubled, replaced by CR/LF/SP/X/HT/0/: (thorough: 13 bytes), pair swapped, pair deleted} x continuation {valid message, empty line + valid message (thorough: LF + valid message)} x {one piece, every single cut, byte-at-a-time with the real processor; one piece, 4 cuts around the change, byte-at-a-time with the recording processor; double cuts with one cut within 3 bytes of the change for the deletions on 12 core bases (thorough: every double cut for 3 kinds on every base of the quick product)}, judged only where the strict recogniser finds a CR/LF framing error; a case is non-trivial when it ended in an error (the after-error clause is exercised by further Parse calls) or a feed left a non-empty carry-over buffer; every case of (c) is non-trivial by construction",
+		Rule: "one case = (byte stream, segmentation, processor, ReadLimit, MaxHTTPBodySize) executed on the real nbhttp.Parser; (a) all strings of length <= 4 (thorough 6) over 12 symbols after each of 11 parser-parking prefixes x {one piece, prefix+suffix, suffix byte-at-a-time}; (b) all distinct single-byte mutants of 20 base messages x {one piece, every single cut, byte-at-a-time; thorough: every double cut with the real processors}; (c) 3x3 limit configurations x 82 messages straddling 16/64 (tokens) and 4/64 (bodies) x {one piece, every single cut, pieces of 1,7,limit-1,limit,limit+1}; (d) malformed framing list (content-length, transfer-encoding, chunk-size forms, each continued by a valid message) x {one piece, every single cut, every double cut, byte-at-a-time}; (e) 538 header blocks over the value classes of Content-Length and Transfer-Encoding (35 + 31 single values, 12x12 + 9x9 ordered pairs on two lines, 9x12x2 Content-Length x Transfer-Encoding combinations, three-line and Trailer forms) x 2-3 line positions x body present / absent x request / response x {one piece, every single cut, byte-at-a-time; thorough: every double cut} x both processors, judged where the RFC 7230 3.3.3 reference says reject; (d2) every framing CR and LF (positions recorded by the generator: start line, header lines, header-block end, chunk-size lines, chunk-data terminators, last-chunk line, trailer lines, final blank line) of every base of the framing grammar (counter d2.bases; requests and responses; bodiless, Content-Length, chunked x chunk lists x extensions x trailers; header and start-line variants; pipelines) x {deleted, doubled, replaced by CR/LF/SP/X/HT/0/: (thorough: 13 bytes), pair swapped, pair deleted} x continuation {valid message, empty line + valid message (thorough: LF + valid message)} x {one piece, every single cut, byte-at-a-time with the real processor; one piece, 4 cuts around the change, byte-at-a-time with the recording processor; double cuts with one cut within 3 bytes of the change for the deletions on 12 core bases (thorough: every double cut for 3 kinds on every base of the quick product)}, judged only where the strict recogniser finds a CR/LF framing error; a case is non-trivial when it ended in an error (the after-error clause is exercised by further Parse calls) or a feed left a non-empty carry-over buffer; every case of (c) is non-trivial by construction",
 		Assumptions: []string{
 			"a panic is detected through nbio's logging (recover() blocks log at error level); a hang is a Parse call that does not return within 30 s",
 			"after an error the harness calls CloseAndClean (what Engine.DataHandler's CloseWithError leads to) and then keeps feeding the rest of the stream and one valid message: every such call must return an error and no callback may fire",
@@ -735,7 +763,9 @@ func main() {
 			"body bound: the sum of body bytes the real processor accepted for one message never exceeds MaxHTTPBodySize (>0), and a message whose body exceeds it never completes",
 			"a limit must not change the outcome of a stream that stays within it (carry-over + read <= ReadLimit at every call, every body <= MaxHTTPBodySize); where a limit is exceeded the parser may return ErrTooLong, and what it reported before is a prefix of the unlimited run",
 			"'rejected rather than guessed' (d): with the real Server/ClientProcessor, some Parse call returns an error before the end of a stream that continues with a complete valid message, and the malformed message is never delivered; recording-processor runs of (d) are only checked for robustness",
-			"not judged (counted as lenient): chunk size '1g', 'Content-Length: +3', two different Content-Length headers, Content-Length together with chunked",
+			"not judged in list (d) (counted as lenient): chunk size '1g', '0x3'; 'Content-Length: +3', two different Content-Length headers and Content-Length together with chunked are decided by part (e)",
+			"(e) which framing header blocks must be rejected is decided by httpgen.FramingHeaderRef (no code shared with nbhttp or net/http): two or more Transfer-Encoding lines -> reject (the property's 'repeated Transfer-Encoding'); one line -> reject unless it is exactly the coding chunked (case-insensitive, optional SP/HT; nbhttp implements no other coding, so every other coding is 'unsupported'; an empty value is no coding at all); without Transfer-Encoding (RFC 7230 3.3.3 rule 4) any Content-Length line whose value is not 1*DIGIT within int63 after trimming SP/HT (empty, blanks, sign, hex, list of differing numbers, ...) or lines with differing values -> reject; rejected = some Parse call returns an error and the message is never delivered, with both processors",
+			"(e) not judged, counted with what nbhttp and net/http did (RFC 7230 lets the recipient choose, or the form is valid): identical repeated Content-Length (3.3.2: reject or fold), a list '3, 3', any Content-Length next to a single valid 'Transfer-Encoding: chunked' (3.3.3 rule 3: Transfer-Encoding overrides), 'chunked,' with empty list elements (section 7), valid forms nbhttp refuses (HT as optional whitespace, 2^62..2^63-1), Trailer values (a forbidden name in Trailer is a sender rule, not malformed framing); the counters 'e.classification ...' record reference / net/http / nbhttp per class: on the unchanged tree net/http refuses every block the reference rejects and accepts every block it accepts",
 			"(d2) 'a missing CR or LF is rejected rather than guessed': which CR/LF bytes are framing is taken from the generator (Msg.EOLs), never from scanning payload; a neighbour must be rejected iff httpgen.StrictFraming (strict RFC 7230 line discipline: start line, header, chunk-size and trailer lines end in CR LF and contain no other CR or LF; chunk data of the announced size is followed by CR LF; shares no code with nbhttp) finds such an error in message k of neighbour + continuation; rejected = message k is never reported complete AND some Parse call returns an error (the stream always continues beyond the damaged byte); neighbours the recogniser finds well-formed, incomplete or wrong for another reason are executed for robustness only (counters d2.streams_not_judged ...)",
 			"(d2) RFC 7230 3.5 allows a recipient to accept a bare LF as line terminator; the property statement is stricter ('a missing CR or LF is rejected') and is what is judged",
 			"(d2) the recogniser is validated on every unchanged base (+ continuation): it must find it well-formed and nbhttp must complete the same number of messages with both processors, otherwise the base's neighbourhood is skipped and d2-reference-self-check-failed is reported",
